@@ -6,7 +6,7 @@ BASE = json.load(open("/root/.vp/BASELINE.json")) if os.path.exists("/root/.vp/B
 
 CLAIMED = {
  # id: (technique, level text, level note, design ref)
- "C10": ("runtime monitor on parse_svg_path (all aliases) judged against an independent SVG 1.1 path-BNF parser; exhaustive short strings + token combinations + random/mutated strings; print->parse round-trip monitor",
+ "C10": ("runtime monitor on parse_svg_path (all aliases) judged against an independent SVG 1.1 path-BNF parser; exhaustive short strings + token combinations + random/mutated strings, each also parsed in the other mode and again (call-history dependence); print->parse round-trip monitor",
          "Every call of the real parser made by the workload is judged by a wrapper against a reference recursive-descent parser of the SVG path BNF: exhaustive over all strings up to length 6/7 on a reduced alphabet and over number-form x separator combinations, random beyond. Held-on-observed, not a proof.",
          "Trusts the reference grammar implementation (self-tested, 150 lines) and Python float() for numeric values.", "3/C10"),
  "C09": ("runtime monitors (wrappers) on every SVGPath rewrite method, as_cmd_seq and the basic-shape as_path, judged by an independent path interpreter: same subpaths/start/end/closedness, control-point equality or Hausdorff + signed-area fallback, arc pieces checked in the unit-circle frame; exhaustive command sequences <=3/<=4 + random + special cases",
@@ -52,16 +52,16 @@ CLAIMED = {
          "Documents with shared ids, many instances, stroked id'd shapes, shared gradients and colliding generated names are converted and their reference graph checked. Held-on-observed.",
          "Only sources whose references resolve are generated.", "3/C08"),
  "C14": ("differential conversion monitor over pairs (D, N(D)) with generated noise insertion at arbitrary tree positions and noise removal on real files; outputs compared by a canonical form that abstracts gradient ids (by content), defs order and 3e-5 relative numeric slack; both-raise counts as equal",
-         "Each pair is converted by the real code and compared. Held-on-observed.",
+         "Each pair is converted by the real code (default options, and 45% of the pairs under drop_unsupported / allow_text / both) and compared. Held-on-observed.",
          "Trusts ref/xmlcanon.equivalent; numeric slack widened from 1.5e-6 to 3e-5 because rounding order (not noise handling) legitimately differs, amplified by bounding-box scales (Corrections log).", "3/C14"),
- "C19": ("runtime monitors on SVG.clip_to_viewbox (rendering of input vs output by the reference evaluator: unchanged inside, empty outside, band around shape edges and the viewBox border) on SVGShape/SVG.bounding_box (analytic extrema: containment and tightness on all four sides) and on Rect.intersection/Rect.union (interval arithmetic); wrong clip results are attributed to the engine only if a direct skia-pathops call reproduces them at the witness point",
+ "C19": ("runtime monitors on SVG.clip_to_viewbox, incl. on objects whose viewBox was edited in place after queries, and on the output of the CLI --clip_to_viewbox subprocess (rendering of input vs output by the reference evaluator: unchanged inside, empty outside, band around shape edges and the viewBox border) on SVGShape/SVG.bounding_box (analytic extrema: containment and tightness on all four sides) and on Rect.intersection/Rect.union (interval arithmetic); wrong clip results are attributed to the engine only if a direct skia-pathops call reproduces them at the witness point",
          "picosvg documents produced by converting generated sources with random viewBox origins/sizes are clipped and judged at ~270 points incl. border/corner-biased ones; boxes of thousands of curved shapes are judged. Held-on-observed.",
          "Trusts ref/render.py and ref/pathgeom.tight_bbox; slack 3e-5*(1+|coord|) for Skia float32.", "3/C19"),
  "C16": ("offline checker over an append-only event log written by child interpreters: (hash seed, batch, position, document, options) -> sha256(output)|exception; documents converted alone in fresh processes under 5 PYTHONHASHSEED values and in long-lived processes in random batch permutations with duplicates; every (document, options) group must have exactly one outcome",
          "Hundreds of conversions of corpus and generated documents (incl. allow_text, gradients, strokes, raising documents) under varied hash seeds, process lifetimes and orders are recorded and grouped. Held-on-observed.",
          "sha256 of SVG.tostring(); exception outcomes compared by type and message prefix.", "3/C16"),
  "C17": ("one fresh interpreter per adversarial document under sys.monitoring logical step counting (PY_START + backward JUMP in picosvg code) with a budget linear in the reference-expanded size, under strace -f -e trace=openat,connect with planted canary files/addresses, plus a wall-clock backstop whose firing alone is inconclusive; returned documents validated against the C01 grammar; per-class reach floors from call counts",
-         "Cyclic use/clip-path/gradient references (incl. chains leading into cycles), dangling references, malformed numbers, unsupported elements, deep nesting, wide acyclic use DAGs and DOCTYPE/entity attacks are each run to an outcome in {returned, raised, budget, killed}. Bounded-progress restatement of liveness; held-on-observed.",
+         "Cyclic use/clip-path/gradient references (incl. chains leading into cycles; xlink:href, SVG 2 plain href and mixed spellings), dangling references, malformed numbers, unsupported elements, deep nesting, wide acyclic use DAGs and DOCTYPE/entity attacks are each run to an outcome in {returned, raised, budget, killed}. Bounded-progress restatement of liveness; held-on-observed.",
          "Liveness restated as steps <= 60000*(expanded elements+20)+4e6; trusts strace for file/socket visibility.", "3/C17"),
  "C15": ("history + executable model: each operation history is run on live objects with no observation in between and compared with a shadow run that serialises and re-parses before every step and applies the in-place form of each step (canonical XML, exception step/type); copy-mode steps are checked for receiver immutability on freshly re-executed runs; in-place steps must return the receiver; answers of the read-only queries (shapes, bounding_box, view_box, checkpicosvg, tolerance) must agree between live object and re-parsed document; divergences are attributed to the shortest diverging prefix",
          "All histories of length <= 2 over 51 steps on six documents (quick), all of length 3 on two documents plus random histories of length 4-8 on the corpus (thorough). Exhaustive on the enumerated sub-space, held-on-observed beyond.",
